@@ -333,9 +333,70 @@ def fewpoints_case(case):
     return out, ("few-points", "first request successful:", first_success)
 
 
+def fitter_case(case):
+    """the fit is requested from IndentationFitter directly (k is a
+    keyword of the constructor), on a fresh curve or on one that was
+    fitted with another k before"""
+    from nanite import model as nmodel
+    from nanite.fit import IndentationFitter
+    out = []
+    mk, k, prior = case["model"], case["k"], case["prior_k"]
+    p = POWER[mk]
+
+    def viol(clause, wit, detail):
+        out.append(V(PROP, clause, site="IndentationFitter", witness=wit,
+                     detail=detail, case=case, kind="grid"))
+    E = {"hertz_para": 3000.0, "hertz_cone": 9000.0,
+         "hertz_pyr3s": 40000.0}[mk]
+    res = {}
+    for kk in (1.0, k):
+        tr = synth.truth_params(mk, E=E, contact_point=CP_TRUE,
+                                baseline=4e-11)
+        idnt = synth.make_curve(mk, tr, n_app=160, n_ret=140, x_start=1.0e-6,
+                                depth=DEPTH, noise=0.0, seed=5)
+        P = nmodel.models_available[mk].get_parameter_defaults()
+        P["contact_point"].set(value=CP_TRUE + 3e-8)
+        P["baseline"].set(value=2e-11)
+        if prior is not None:
+            P0 = nmodel.models_available[mk].get_parameter_defaults()
+            P0["contact_point"].set(value=CP_TRUE + 3e-8)
+            P0["E"].set(value=1.2 * E * prior ** (-p))
+            idnt.fit_model(model_key=mk, params_initial=P0, gcf_k=prior,
+                           weight_cp=0)
+        P["E"].set(value=1.2 * E * kk ** (-p))
+        try:
+            f = IndentationFitter(idnt, model_key=mk, params_initial=P,
+                                  gcf_k=kk, weight_cp=0, segment=0,
+                                  range_type="absolute", range_x=[0, 0])
+            f.fit()
+            res[kk] = f.fp
+        except BaseException as e:
+            if isinstance(e, (KeyboardInterrupt, SystemExit, MemoryError)):
+                raise
+            viol("k-invariance", f"k={kk:.3g}:raises", repr(e))
+            return out, ("raises",)
+    f1, fk = res[1.0], res[k]
+    if not (f1.get("success") and fk.get("success")):
+        viol("k-invariance", f"k={k:.3g}:success", "unsuccessful")
+        return out, ("unsuccessful",)
+    q1, qk = f1["params_fitted"], fk["params_fitted"]
+    dcp = abs(qk["contact_point"].value - q1["contact_point"].value) / DEPTH
+    rE = qk["E"].value / (q1["E"].value * k ** (-p))
+    wit = f"k={k:.3g}" + ("" if prior is None else f":after-k={prior:.3g}")
+    if not dcp <= 1e-8:
+        viol("k-invariance", wit + ":contact_point", f"|d cp|/depth = "
+             f"{dcp:.2e}")
+    if not abs(rE - 1) <= 1e-6:
+        viol("k-scaling", wit, f"E_k / (E_1 k^-{p}) = {rE!r} (fit "
+             f"requested with IndentationFitter(idnt, gcf_k={k}))")
+    return out, ("fitter", prior is not None)
+
+
 def case_fn(case):
     if case.get("mode") == "guessed":
         return guessed_case(case)
+    if case.get("mode") == "fitter":
+        return fitter_case(case)
     if case.get("mode") == "few-points":
         return fewpoints_case(case)
     if case.get("mode") == "cp-limits":
@@ -492,6 +553,14 @@ def cases(tier):
                     cs.append({"kind": "grid", "mode": "guessed", "model": mk,
                                "segment": seg, "k": k, "entry": entry,
                                "compare": k in (0.5, 0.6, 2.0)})
+    # the fit is requested from the fitter class directly
+    for mk in POWER:
+        for k in KS:
+            for prior in (None, 0.5, 1.0):
+                if prior == k:
+                    continue
+                cs.append({"kind": "grid", "mode": "fitter", "model": mk,
+                           "k": k, "prior_k": prior})
     # fit requests whose range holds too few points
     for mk in POWER:
         for k in KS + [1.0]:
